@@ -23,11 +23,13 @@ def one(ctx, A, Pc, tol, kind, meta):
     drv = ctx.driver()
     try:
         with core.quiet():
+            pobj, pform = P.poly_form([complex(z) for z in Pc], (list(Pc), tol))
+            ctx.count("container:" + pform)
             if tol == 1e-6 and zlib.crc32(repr(list(Pc)).encode()) % 3 == 0:      # a third of the default-tolerance calls leave it to the library
                 ctx.count("tolerance:library-default")
-                ph = A.QuantumSignalProcessingPhases(np.array(Pc), signal_operator="Wx", measurement="z")
+                ph = A.QuantumSignalProcessingPhases(pobj, signal_operator="Wx", measurement="z")
             else:
-                ph = A.QuantumSignalProcessingPhases(np.array(Pc), signal_operator="Wx", measurement="z", tolerance=tol)
+                ph = A.QuantumSignalProcessingPhases(pobj, signal_operator="Wx", measurement="z", tolerance=tol)
         out = ("ok", [float(x) for x in ph])
         core.poison(ph)          # the caller owns the returned list; the library must not have kept it
     except Exception as e:  # noqa
